@@ -36,6 +36,7 @@ pub fn c01_case(cx: &mut Ctx, c: u32, l: u32, pk: PK, ops: &[Op], kind: &str) {
         case.ops = ops[..n.min(ops.len())].to_vec();
         case
     };
+    cx.journal_case(&|| mk(ops.len()));
     let mut sys = Sys::new(c, l, pk);
     // record calls (not snapshots): the call in flight names the operation that panicked
     sys.set_recording(true, false);
@@ -220,6 +221,37 @@ impl Check for C01Check {
         }
         if complete {
             cx.stats.exhaustive_parts.insert(format!("all strings of length <= {} over the 73-character class alphabet after each of {} state-setting prefixes, Parser (UTF-8) and ByteParser (8-bit)", maxlen, prefixes.len()));
+        }
+        // (b') every sequence of the grammar pool cut at every position and fed unit by unit:
+        // state carried across feed() calls (coroutine position, decoder, locks)
+        if cx.begin_group("pool sequences x cuts") {
+            let pool = crate::checks::parsing::seq_pool();
+            for (i, s) in pool.iter().enumerate() {
+                if !cx.mine(i as u64) {
+                    continue;
+                }
+                let full = format!("{}ok", s);
+                let b = full.as_bytes();
+                for k in 1..b.len() {
+                    let ops = vec![Op::FeedBytes(b[..k].to_vec()), Op::FeedBytes(b[k..].to_vec())];
+                    c01_case(cx, 6, 2, PK::Bytes, &ops, "pool-2way");
+                    if k % 2 == 0 {
+                        let mut o8 = vec![Op::Charset("@".into())];
+                        o8.extend(ops.iter().cloned());
+                        c01_case(cx, 6, 2, PK::Bytes, &o8, "pool-2way-8bit");
+                    }
+                }
+                let unit: Vec<Op> = b.iter().map(|x| Op::FeedBytes(vec![*x])).collect();
+                c01_case(cx, 6, 2, PK::Bytes, &unit, "pool-bytewise");
+                let chars: Vec<Op> = full.chars().map(|c| Op::Feed(c.to_string())).collect();
+                c01_case(cx, 6, 2, PK::Chars, &chars, "pool-charwise");
+                // a mode switch at every cut
+                for k in 1..b.len().min(6) {
+                    let ops = vec![Op::FeedBytes(b[..k].to_vec()), Op::Charset("@".into()), Op::FeedBytes(b[k..].to_vec()), Op::Charset("G".into()), Op::Feed("z".into())];
+                    c01_case(cx, 6, 2, PK::Bytes, &ops, "pool-switch");
+                }
+            }
+            cx.stats.exhaustive_parts.insert(format!("every 2-way byte cut, byte-at-a-time and char-at-a-time feeding of {} pool sequences (+ sentinel text), UTF-8 and 8-bit, with a mode switch at the first cuts", pool.len()));
         }
         // (c) all 2-byte strings
         if cx.begin_group("two-byte strings") {
